@@ -1,6 +1,7 @@
 import PycModel.Proto
 import PycModel.Lexer
 import PycModel.Parser.Stmt
+import PycModel.Generator
 import PycModel.Generated.LexTables
 /-! Model driver: one request per line on stdin, one response per line on stdout. -/
 open PycModel PycModel.Proto
@@ -12,6 +13,20 @@ def evStr : Ev → String
   | .stuck => "STUCK"
   | .dir _ _ => ""
 
+def crashName : Crash → String
+  | .assertion => "assertion" | .attribute => "attribute" | .value => "value"
+  | .index => "index" | .type => "type" | .key => "key"
+
+def genStr (rp : Bool) (v : Val) : String :=
+  match generate rp v with
+  | .ok s => "T:" ++ escape s
+  | .error (.attribute _) => "X:attribute"
+  | .error (.type _) => "X:type"
+  | .error (.index _) => "X:index"
+  | .error (.assertion _) => "X:assertion"
+  | .error (.key _) => "X:key"
+  | .error .fuel => "X:fuel"
+
 def handle (line : String) : String :=
   match (line.splitOn "\t").map unescape with
   | ["scan", types, file, text] =>
@@ -22,9 +37,13 @@ def handle (line : String) : String :=
     match (parseText Generated.lexCfg 100000 text file).1 with
     | .ast v => "OK\t" ++ escape (v.dump false) ++ "\t" ++ escape (v.dump true)
     | .parseError loc msg => "PE\t" ++ escape (loc.str ++ ": " ++ msg)
-    | .crash k site => "CRASH\t" ++ (match k with
-        | .assertion => "assertion" | .attribute => "attribute" | .value => "value"
-        | .index => "index" | .type => "type" | .key => "key") ++ "\t" ++ escape site
+    | .crash k site => "CRASH\t" ++ crashName k ++ "\t" ++ escape site
+    | .fuel => "FUEL"
+  | ["gen", file, text] =>
+    match (parseText Generated.lexCfg 100000 text file).1 with
+    | .ast v => "OK\t" ++ genStr false v ++ "\t" ++ genStr true v
+    | .parseError loc msg => "PE\t" ++ escape (loc.str ++ ": " ++ msg)
+    | .crash k _ => "CRASH\t" ++ crashName k
     | .fuel => "FUEL"
   | op :: _ => "BADOP " ++ op
   | [] => "BADOP"
